@@ -188,6 +188,34 @@ def fixed_cases(r, n, driver):
     return cases, len(stm)
 
 
+def double_println_cases(r, n):
+    """print / println of a double without a format: the shortest of fixed / exponent notation with 15 significant digits
+    (C's %.15g), with ".0" appended to a value that would otherwise look like an integer — calibrated to the implementation
+    (the property only says 'exact decimal form'); the oracle is Python's %-formatting, which is C's"""
+    def render(x):
+        t = "%.15g" % x
+        if not any(ch in t for ch in ".eEn"):      # n: inf / nan
+            t += ".0"
+        return t
+    lits = ["0.1", "1.5", "100.0", "1e21", "1e-7", "2e30", "1e15", "4e-10", "123456789.125", "2.5e-5", "1e100", "0.5", "3.0", "1e16", "123456789012345.0",
+            "1234567890123456.0", "0.000123", "0.0001", "0.00001", "1e5", "100000.0", "1e-5", "9.99e20", "7.0e0", "0.333333333333333"]
+    for _ in range(n):
+        k = r.below(3)
+        lits.append(["%d.%d" % (r.range(0, 99999), r.range(0, 9999)), "%de%d" % (r.range(1, 9), r.range(-30, 30)), "%d.%de%d" % (r.range(1, 9), r.range(0, 999), r.range(-20, 25))][k])
+    cases = []
+    B = 20
+    items = [(l, neg) for l in lits for neg in (False, True)]
+    for b in range(0, len(items), B):
+        body, exp = [], []
+        for i, (l, neg) in enumerate(items[b:b + B]):
+            x = float(l) * (-1 if neg else 1)
+            body.append("    double x%d = %s%s;\n    println(x%d);\n    println(\"v\", x%d, %d);\n" % (i, "-" if neg else "", l, i, i, i))
+            exp.append("%s\nv %s %d\n" % (render(x), render(x), i))
+        cases.append({"id": "double-println-%d" % (b // B), "program": "int main() {\n" + "".join(body) + "    println(\"END\");\n    return 0;\n}\n",
+                      "expect_class": "ok", "expect_stdout": "".join(exp) + "END\n"})
+    return cases
+
+
 def main(a):
     c = RefCheck(PID, a, ["CbProofs", "CbProps.C16", "CbProps.C16Fixed"], THEOREMS)
     if not c.build():
@@ -203,6 +231,7 @@ def main(a):
             nontrivial=lambda r: hash(r.stdout))
     fc, nfixed = fixed_cases(Rng(a.seed, 163), 300 if quick else 30000, common.driver_path())
     c.raw_suite("fixed-precision", fc)
+    c.raw_suite("double-println", double_println_cases(Rng(a.seed, 164), 60 if quick else 6000))
     return c.finish(
         rule="boundary-integers: %d integers (every power of two and of ten +-1, type boundaries) x {println, {v}, :x, :X, :b, "
              ":Nd, :0Nd, %%d, %%lld, %%Nd, %%0Nd, %%-Nd} x widths; text-and-printf: random ASCII/UTF-8 literals, doubled "
@@ -215,4 +244,6 @@ def main(a):
         assumptions=["floating-point rendering is modelled for :.Nf on double values only (exact rational arithmetic; the harness supplies "
                      "the exact value of the double a literal denotes via Python's float, i.e. correctly rounded strtod); float / quad "
                      "variables, width with precision ({x:8.2f}) and :e are not exercised",
+                     "print / println of a double without format is compared with C's %.15g (+ '.0' for integer-looking values): a "
+                     "calibration to the implementation, the oracle is Python's formatting (trusted harness, no Lean model)",
                      "%x %o %u and {v:o} are not documented conversions and are not exercised"])
